@@ -264,6 +264,80 @@ def observe(case, st, before, after, content):
     return {"ok": ok, "kind": kind, "at": at, "ghost": ghost}, extra
 
 
+def concurrent_pairs(rep, rnd, count):
+    """Two uploads of different content to the SAME path on one server at the same time (two connections, one event
+    loop).  If the handler moves its storing to worker threads, the threads are lined up so that both have written before
+    either renames (the schedule a shared temporary name cannot survive); code that stores inside the event loop runs
+    its two requests one after the other.  Whatever the schedule: the file ends as the content of a request that was
+    answered 20, and a request answered otherwise has left nothing of its content behind."""
+    import pathlib
+    import threading
+    import nauyaca.server.handler as hmod
+    n = 0
+    main_thread = threading.get_ident()
+    for _ in range(count):
+        top = tempfile.mkdtemp(prefix="vf-up2-")
+        up = os.path.join(top, "up")
+        os.makedirs(up)
+        ca = b"CONTENT-OF-A-" + bytes(rnd.getrandbits(8) for _ in range(20))
+        cb = b"CONTENT-OF-B-" + bytes(rnd.getrandbits(8) for _ in range(30))
+        barrier = threading.Barrier(2)
+        orig_write = pathlib.Path.write_bytes
+
+        def write_bytes(self, data):
+            r = orig_write(self, data)
+            if threading.get_ident() != main_thread:
+                try:
+                    barrier.wait(timeout=0.5)
+                except threading.BrokenBarrierError:
+                    pass
+            return r
+        pathlib.Path.write_bytes = write_bytes
+        loop = VLoop()
+        asyncio.set_event_loop(loop)
+        try:
+            handler = FileUploadHandler(upload_dir=up, max_size=LIMIT * 4)
+            trs = []
+            for content in (ca, cb):
+                proto = GeminiServerProtocol(lambda r: GeminiResponse(status=51, meta="no gemini here"), None, handler)
+                tr = FakeTransport(loop, proto, auto_lost=True)
+                loop.call(proto.connection_made, tr)
+                trs.append(tr)
+            for tr, content in zip(trs, (ca, cb)):
+                loop.call_soon(tr.feed, b"titan://h.ex/same.bin;size=%d;mime=application/octet-stream\r\n" % len(content) + content)
+            for _i in range(6):
+                loop.run_idle()
+            sts = [int(bytes(tr.wire[:2])) if bytes(tr.wire[:2]).isdigit() else 0 for tr in trs]
+            target = os.path.join(up, "same.bin")
+            final = open(target, "rb").read() if os.path.exists(target) else None
+            leftovers = sorted(x for x in os.listdir(up) if x != "same.bin")
+            n += 1
+            ok_contents = [c for c, st in zip((ca, cb), sts) if st == 20]
+            bad = None
+            if final is not None and final not in ok_contents:
+                bad = ("NonSuccessLeavesTreeUnchanged" if final in (ca, cb) else "SuccessChangesExactlyTarget",
+                       "the file holds %r, the requests answered 20 sent %s" % (final[:16], [c[:13] for c in ok_contents]))
+            elif final is None and ok_contents:
+                bad = ("SuccessChangesExactlyTarget", "a request was answered 20 but the file does not exist")
+            elif leftovers:
+                bad = ("SuccessChangesExactlyTarget", "other files were left behind: %s" % leftovers)
+            if bad:
+                rep.violation({"formula": bad[0], "concurrent": True},
+                              "%s falsified: two simultaneous uploads to /same.bin answered %s: %s" % (bad[0], sts, bad[1]), None)
+        finally:
+            pathlib.Path.write_bytes = orig_write
+            try:
+                for t in asyncio.all_tasks(loop):
+                    t.cancel()
+                loop.run_idle()
+            except Exception:
+                pass
+            asyncio.set_event_loop(None)
+            loop.close()
+            shutil.rmtree(top, ignore_errors=True)
+    rep.add("simultaneous_upload_pairs", n)
+
+
 def main(pid="C14"):
     rep = evidence.Report(pid, "fault_enumeration")
     thorough = rep.tier == "thorough"
@@ -336,6 +410,7 @@ def main(pid="C14"):
                 rep.drifted("handler departs from the model, C14 formulas hold: " + desc)
             elif i % 1009 == 0:
                 rep.sample({k: v for k, v in c.items() if not k.startswith("_extra")})
+        concurrent_pairs(rep, rnd, 60 if thorough else 12)
         rep.set("rule", "all 11 link-slot trees x all 91 paths of <= 2 tokens with randomly drawn request dimensions, plus storage-fault "
                 "cases produced by the OS in a forked child; each through the real protocol with random read segmentation and surplus bytes")
         rep.set("exhaustive", False)
